@@ -126,6 +126,30 @@ def run_case(ctx, case, model=True):
             res = fc.get_total_co2_emissions(fuel_consumer_class=cls)
         except Exception as e:
             ctx.count("emissions_rejected", core.error_class(e))
+    # the record is changed after a first evaluation (a mass re-assigned, the pilot fuel appended later): the next evaluation sees the change
+    if res is not None and len(case["fuels"]) >= 1 and case["idx"] % 3 == 1:
+        try:
+            import copy
+            case2 = copy.deepcopy(case)
+            f0 = case2["fuels"][0]
+            f0["mass"] = [3.0 * x + 1.0 for x in f0["mass"]] if isinstance(f0["mass"], list) else 3.0 * f0["mass"] + 1.0
+            fresh_fuels = build(case2)
+            fc.fuels[0].mass_or_mass_fraction = fresh_fuels[0].mass_or_mass_fraction.copy() if isinstance(fresh_fuels[0].mass_or_mass_fraction, np.ndarray) else fresh_fuels[0].mass_or_mass_fraction
+            moved = fc.fuels.pop()          # … and the last fuel taken out and appended again
+            fc.fuels.append(moved)
+            res2 = fc.get_total_co2_emissions(fuel_consumer_class=cls)
+            res3 = FuelConsumption(fuels=fresh_fuels).get_total_co2_emissions(fuel_consumer_class=cls)
+            ctx.count("record_changed_after_first_evaluation", True)
+            for nm in ("tank_to_wake_kg_or_gco2eq_per_gfuel", "well_to_tank_kg_or_gco2eq_per_gfuel", "tank_to_wake_kg_or_gco2eq_per_gfuel_without_slip"):
+                a, b = field(res2, nm, n), field(res3, nm, n)
+                if not all(close(x, y, scale=1.0) for x, y in zip(a, b)):
+                    ctx.fail("predicate", "stale-answer-after-record-changed", f"{nm}: {a.tolist()} after re-assigning a mass on the record, {b.tolist()} for a fresh record", where)
+                    break
+        except Exception as e:
+            ctx.count("record_change_rejected", core.error_class(e))
+        finally:
+            orig = build(case)
+            fc.fuels[0].mass_or_mass_fraction = orig[0].mass_or_mass_fraction
     # a user's own factors edited in place after a first evaluation (a slip sweep on one factor object): the next evaluation uses them
     if res is not None and case["user"] is not None and case["idx"] % 2 == 0:
         try:
